@@ -422,7 +422,10 @@ class Agent(dbus.service.Object):
                     xfer.got_idx |= apiIntInterval.singleton(msg.payload.seg_idx)
                     xfer.data[msg.payload.seg_idx] = msg.payload.payload.load
                     self.__logger.debug('Current transfer state %s of %s', xfer.got_idx, xfer.got_end)
-                    glib.timeout_add(RX_XFER_TIMEOUT_MS, self._rx_progress_cancel, key)
+                    # one timeout per transfer, restarted by each new segment
+                    if xfer.timeout_id is not None:
+                        glib.source_remove(xfer.timeout_id)
+                    xfer.timeout_id = glib.timeout_add(RX_XFER_TIMEOUT_MS, self._rx_progress_cancel, key)
 
                     if xfer.got_end is not None:
                         # the full range is known at least
@@ -448,7 +451,11 @@ class Agent(dbus.service.Object):
 
     def _rx_progress_cancel(self, key):
         # TODO keep this around for a while while the window is still open
-        del self._rx_progres[key]
+        xfer = self._rx_progres.pop(key, None)
+        if xfer is not None and xfer.timeout_id is not None:
+            glib.source_remove(xfer.timeout_id)
+            xfer.timeout_id = None
+        return False
 
     def _add_rx_item(self, item: BundleItem):
         ''' Add a recevied bundle.
